@@ -46,7 +46,7 @@ import translate_guards as tg
 PROP = "C13"
 RUNNER = VERIF / "harness" / "c13_run.py"
 TRACER = VERIF / "harness" / "c14_run.py"
-STRESS_ALARM = 20       # seconds; the size-parameterised inputs of c13_gen.stress take well under 2 s each on the unchanged tree
+STRESS_ALARM = 10       # seconds; the size-parameterised inputs of c13_gen.stress take well under 2 s each on the unchanged tree
 BASELINE = VERIF / "harness" / "c13_guards_baseline.json"
 KNOWN_SITES = VERIF / "harness" / "c13_known_sites.json"          # finding id -> failing expressions of its crash sites
 PROPOSED = VERIF / "reports" / "C13-known-findings-5.json"        # findings of triage round 5: not yet merged, or repaired by a
@@ -102,6 +102,8 @@ def known_match(o, table=None):
                 continue
             if "file" in m and (len(o) < 3 or m["file"] != o[1] or m.get("function") != o[2]):
                 continue
+            if "sites" in m and (len(o) < 3 or [o[1], o[2]] not in m["sites"]):
+                continue        # `sites`: the (file, function) pairs in which the alarm may fire for this finding
             if "file" in m and exprs is not None and (len(o) < 5 or o[4] not in exprs):
                 continue
             return f
@@ -213,7 +215,7 @@ def main(tier: str) -> int:
             k = (m, c["header"], c["pack_format"])
             if k not in seen:
                 seen.add(k)
-                cell = ("head5", ctx[i][3], ctx[i + 1][3] if op.startswith("head") and i + 1 < len(ctx) else "$")
+                cell = ("head5", ctx[i][0], ctx[i][3]) if op.startswith("head") else ("end5", ctx[i][3])
                 allm.append((c["name"], op, cell, dict(src=m, header=c["header"], pack_format=c["pack_format"])))
         if c["header"]:
             ctx = contexts(c["header"])
@@ -300,17 +302,17 @@ def main(tier: str) -> int:
         if o[0] == "timeout":
             tgroups.setdefault((o[1], o[2]) if len(o) > 2 else ("?", "?"), []).append(n)
     first = {k: min(v, key=lambda n: len(jobs[n]["src"]) + len(jobs[n]["header"] or "")) for k, v in tgroups.items()}
-    again = run_mutants([jobs[n] for n in first.values()], chunk=1, alarm=5) if first else []
+    n_plain = len(jobs) - len(sjobs)
+
+    def alone(ns):
+        return run_mutants([dict(jobs[n], alarm=STRESS_ALARM if n >= n_plain else jobs[n].get("alarm", 5)) for n in ns], chunk=1)
+
+    again = alone(list(first.values())) if first else []
     reruns = len(again)
-    for (k, n), o in zip(first.items(), again):
-        n_stress = n >= len(jobs) - len(sjobs)
-        if n_stress:
-            o = run_mutants([jobs[n]], chunk=1, alarm=STRESS_ALARM)[0]
-        if o[0] == "timeout":
-            continue
-        rest = run_mutants([jobs[m] for m in tgroups[k]], chunk=1, alarm=STRESS_ALARM if n_stress else 5)
-        reruns += len(rest)
-        for m, o2 in zip(tgroups[k], rest):
+    unconfirmed = [m for (k, n), o in zip(first.items(), again) if o[0] != "timeout" for m in tgroups[k]]
+    if unconfirmed:
+        reruns += len(unconfirmed)
+        for m, o2 in zip(unconfirmed, alone(unconfirmed)):
             out[m] = o2
     phase("stress+confirm")
     classes = {"ok": 0, "diag": 0, "internal": 0, "timeout": 0}
